@@ -1427,6 +1427,13 @@ static const uint8_t *unmarshal_one(
             *out = janet_wrap_function(func);
             janet_v_push(st->lookup, *out);
             data = unmarshal_one_def(st, data, &def, flags + 1);
+            if (def->bytecode_length == 0) {
+                janet_panic("invalid function - funcdef is not complete");
+            }
+            if (def->environments_length != len) {
+                janet_panicf("invalid function - expected %d environments, got %d",
+                             def->environments_length, len);
+            }
             func->def = def;
             for (int32_t i = 0; i < len; i++) {
                 data = unmarshal_one_env(st, data, &(func->envs[i]), flags + 1);
